@@ -34,8 +34,8 @@ META = {
             "binary is run on each tree and TLC judges the analysed-file list (exact set, each once, canonical names, sorted). "
             "Exhaustive enumeration within bounds is the right level for a pure string function whose defects show on short strings.",
     "ref": "DESIGN.md section 4 C31",
-    "note": "Unix syntax only (the platform's); Windows syntax, symlinks, project files (--project) and the GUI's exclude list are "
-            "not exercised. Suppression file patterns use the same PathMatch::match with an empty base path: covered by the "
+    "note": "Unix syntax exhaustively; Windows syntax only for letter case and the two separators (no drive / UNC roots, and on this "
+            "platform Path::isAbsolute is the unix one); symlinks, project files (--project) and the GUI's exclude list are not exercised. Suppression file patterns use the same PathMatch::match with an empty base path: covered by the "
             "base-path '' stratum of the matcher, not end-to-end (C23). Outcomes the documentation leaves open are not judged "
             "(verdict Open in PathMatch.tla; list in the header of FileSelect.tla). Trusted: TLC, the harness (calls only), the "
             "'Checking <file> ...' lines as the list of analysed files.",
@@ -61,11 +61,15 @@ def strata(tier):
             {"name": "ab./*?^4 x ab./^4", "pa": "ab./*?", "ta": "ab./", "pn": 4, "tn": 4, "bases": ["", "/b"], "shards": 4},
             {"name": "a/*?.^3 x a/*?^4 (wildcard characters in paths, longer bases)", "pa": "a/*?.", "ta": "a/*?", "pn": 3, "tn": 4,
              "bases": ["/a/b", "/b/"], "shards": 1},
+            {"name": "windows syntax: aA\\/.*^3 x aA\\/.^4 (letter case, both separators)", "pa": "aA\\/.*", "ta": "aA\\/.", "pn": 3, "tn": 4,
+             "bases": ["", "/B"], "shards": 1, "syntax": "windows"},
         ]
     return [
         {"name": "ab./*?^5 x ab./^5", "pa": "ab./*?", "ta": "ab./", "pn": 5, "tn": 5, "bases": ["", "/b"], "shards": 5},
         {"name": "a/*?.^4 x a./*?^5 (wildcard characters in paths, longer bases)", "pa": "a/*?.", "ta": "a./*?", "pn": 4, "tn": 5,
          "bases": ["/a/b", "/b/"], "shards": 4},
+        {"name": "windows syntax: aA\\/.*^4 x aA\\/.^4 (letter case, both separators)", "pa": "aA\\/.*", "ta": "aA\\/.", "pn": 4, "tn": 4,
+         "bases": ["", "/B"], "shards": 3, "syntax": "windows"},
     ]
 
 
@@ -89,7 +93,7 @@ def write_lines(path, strings):
 
 def matcher_gen(st, work):
     params = {"pa": chars(st["pa"]), "ta": chars(st["ta"]), "pn": st["pn"], "tn": st["tn"],
-              "bases": [chars(b) for b in st["bases"]], "lawn": 1}
+              "bases": [chars(b) for b in st["bases"]], "lawn": 1, "syntax": st.get("syntax", "unix")}
     pfile = os.path.join(work, "params.ndjson")
     vlib.write_ndjson(pfile, [params])
     env = {"STEP": "gen", "PARAMS": pfile, "PATS": os.path.join(work, "pats.ndjson"), "PATHS": os.path.join(work, "paths.ndjson"),
@@ -109,7 +113,7 @@ def matcher_harness(exe, st, work, pats, paths):
     write_lines(os.path.join(work, "paths.txt"), paths)
     write_lines(os.path.join(work, "bases.txt"), st["bases"])
     rc, out, err = vlib.run([exe, os.path.join(work, "pats.txt"), os.path.join(work, "paths.txt"), os.path.join(work, "bases.txt"),
-                             str(st["shards"]), os.path.join(work, "obs")], timeout=1800)
+                             str(st["shards"]), os.path.join(work, "obs"), st.get("syntax", "unix")], timeout=1800)
     if rc != 0:
         raise vlib.InfraError("pathmatch_harness failed rc=%s\n%s" % (rc, (out + err)[-2000:]))
     m = re.search(r"calls (\d+)", out)
@@ -266,23 +270,28 @@ def pick_shown(unknown):
     return out + sel
 
 
-def match_key(p, t, base, mode):
-    return "match:" + vlib.digest({"p": p, "t": t, "base": base, "mode": mode})
+def match_key(p, t, base, mode, syntax="unix"):
+    d = {"p": p, "t": t, "base": base, "mode": mode}
+    if syntax != "unix":
+        d["syntax"] = syntax
+    return "match:" + vlib.digest(d)
 
 
 def expand_bad(st, pats, paths, bad):
     """judge rows -> list of single failing cases"""
     res = []
+    syntax = st.get("syntax", "unix")
     for b in bad:
         p = pats[b["p"] - 1]
         base = st["bases"][b["b"] - 1]
         if b["mode"] == "split":
-            res.append({"kind": "match", "p": p, "t": paths[b["extra"][0] - 1], "base": base, "mode": "split", "got": None, "want": "same result from both entry points"})
+            res.append({"kind": "match", "syntax": syntax, "p": p, "t": paths[b["extra"][0] - 1], "base": base, "mode": "split", "got": None,
+                        "want": "same result from both entry points"})
             continue
         for j in b["miss"]:
-            res.append({"kind": "match", "p": p, "t": paths[j - 1], "base": base, "mode": b["mode"], "got": False, "want": True})
+            res.append({"kind": "match", "syntax": syntax, "p": p, "t": paths[j - 1], "base": base, "mode": b["mode"], "got": False, "want": True})
         for j in b["extra"]:
-            res.append({"kind": "match", "p": p, "t": paths[j - 1], "base": base, "mode": b["mode"], "got": True, "want": False})
+            res.append({"kind": "match", "syntax": syntax, "p": p, "t": paths[j - 1], "base": base, "mode": b["mode"], "got": True, "want": False})
     return res
 
 
@@ -338,9 +347,10 @@ def main(tier, seed, replay=None):
     allbad = []
     for st in sts:
         for c in expand_bad(st, st["pats"], st["paths"], st["bad"]):
-            c["key"] = match_key(c["p"], c["t"], c["base"], c["mode"])
-            c["what"] = 'PathMatch::match(pattern="%s", path="%s", basepath="%s", mode=%s) returned %s; the documented rules require %s' % (
-                c["p"], c["t"], c["base"], {"reg": "regular", "dir": "directory"}.get(c["mode"], c["mode"]), c["got"], c["want"])
+            c["key"] = match_key(c["p"], c["t"], c["base"], c["mode"], c["syntax"])
+            c["what"] = 'PathMatch::match(pattern="%s", path="%s", basepath="%s", mode=%s%s) returned %s; the documented rules require %s' % (
+                c["p"], c["t"], c["base"], {"reg": "regular", "dir": "directory"}.get(c["mode"], c["mode"]),
+                "" if c["syntax"] == "unix" else ", syntax=" + c["syntax"], c["got"], c["want"])
             c["size"] = (len(c["p"]) + len(c["t"]) + len(c["base"]), c["p"], c["t"], c["base"], c["mode"])
             allbad.append(c)
     bycase = {c["id"]: c for c in cases}
@@ -366,7 +376,7 @@ def main(tier, seed, replay=None):
         violations.append({"key": c["key"], "what": c["what"], "replay": p})
     if allbad:
         allp = vlib.save_replay(PID, "all-%s" % tier, {"kind": "list", "count": len(allbad),
-                                                       "cases": [{k: v for k, v in c.items() if k in ("kind", "p", "t", "base", "mode", "got", "want", "key", "what", "case")} for c in allbad[:200000]]})
+                                                       "cases": [{k: v for k, v in c.items() if k in ("kind", "syntax", "p", "t", "base", "mode", "got", "want", "key", "what", "case")} for c in allbad[:200000]]})
     rc, new, kn = vlib.verdict(PID, violations)
     if len(unknown) > new:
         print("  ... and %d more failing cases, %d distinct failing patterns in all (every failing case of this run: %s)" % (
@@ -395,7 +405,7 @@ def main(tier, seed, replay=None):
         "samples": samples,
         "exhaustive": False,
         "strata": [{"name": st["name"], "pattern_alphabet": st["pa"], "path_alphabet": st["ta"], "max_pattern": st["pn"], "max_path": st["tn"],
-                    "bases": st["bases"], "patterns": len(st["pats"]), "paths": len(st["paths"]), "cases": st["nums"]["cases"],
+                    "bases": st["bases"], "syntax": st.get("syntax", "unix"), "patterns": len(st["pats"]), "paths": len(st["paths"]), "cases": st["nums"]["cases"],
                     "expected_match": st["nums"]["t"], "expected_nomatch": st["nums"]["f"], "open_not_judged": st["nums"]["open"],
                     "disagreements": st["nums"]["bad"], "harness_calls": st["calls"], "exhaustive": True} for st in sts],
         "matcher_distinct_tuples": distinct_all, "matcher_distinct_match_tuples": distinct_t,
@@ -405,7 +415,7 @@ def main(tier, seed, replay=None):
         "failing_cases_total": len(allbad), "failing_cases_known": len(allbad) - len(unknown),
     }
     vlib.write_evidence(PID, tier, seed, "exploration", cov, time.time() - t0, violations=len(unknown),
-                        assumptions=["unix path syntax; symlinks excluded (statement)",
+                        assumptions=["unix path syntax (exhaustive strata) and the case / separator part of windows syntax; symlinks excluded (statement)",
                                      "outcomes the documentation leaves open are not judged (verdict Open: empty canonical pattern, unresolvable '..' without root, "
                                      "a free pattern starting in front of the root separator, the root pattern '/', '**' swallowing the separator in front of the final component "
                                      "for trailing-separator patterns, undocumented extensions, order across input paths)",
@@ -422,9 +432,9 @@ def do_replay(path, exe):
     kind = payload.get("kind")
     work = vlib.mktmp("c31r")
     if kind == "match":
-        st = {"bases": [payload["base"]], "shards": 1}
+        st = {"bases": [payload["base"]], "shards": 1, "syntax": payload.get("syntax", "unix")}
         pfile = os.path.join(work, "params.ndjson")
-        vlib.write_ndjson(pfile, [{"pa": [], "ta": [], "pn": 0, "tn": 0, "bases": [chars(payload["base"])], "lawn": 0}])
+        vlib.write_ndjson(pfile, [{"pa": [], "ta": [], "pn": 0, "tn": 0, "bases": [chars(payload["base"])], "lawn": 0, "syntax": st["syntax"]}])
         genv = {"PARAMS": pfile, "PATS": os.path.join(work, "pats.ndjson"), "PATHS": os.path.join(work, "paths.ndjson"), "SHARDS": "1", "SHARD": "0"}
         vlib.write_ndjson(genv["PATS"], [{"s": chars(payload["p"])}])
         vlib.write_ndjson(genv["PATHS"], [{"s": chars(payload["t"])}])
